@@ -2,7 +2,7 @@
    rpc/internal/balancer/p2c/p2c.go and rpc/internal/codes/accept.go are the ones the model and the
    theorems use; the executable checkers of Exec agree with the Spec predicates. *)
 From Coq Require Import String Floats.
-From God Require Import Base.Prelude C14.Model C14.Spec C14.Proofs C14.Exec.
+From God Require Import Base.Prelude C14.Model C14.Spec C14.Proofs C14.Client C14.Exec.
 From GodGen Require C14_Gen.
 Local Open Scope Z_scope.
 
@@ -157,3 +157,48 @@ Lemma score_ok_exec s : (0 <=? s) && (s <=? 1000) = true <-> score_ok s.
 Proof. unfold score_ok. rewrite andb_true_iff, Z.leb_le, Z.leb_le. reflexivity. Qed.
 Lemma toward_exec old t new : (Z.min old t <=? new) && (new <=? Z.max old t) = true <-> toward old t new.
 Proof. unfold toward. rewrite andb_true_iff, Z.leb_le, Z.leb_le. reflexivity. Qed.
+
+(* ---------- client wiring (rpc/internal/client.go) ---------- *)
+(* the balancer registers under the name the client's service config asks for, and that is "p2c_ewma" *)
+Lemma link_p2c_name : C14_Gen.Name = "p2c_ewma"%string /\
+  svc_json C14_Gen.Name = "{""loadBalancingPolicy"":""p2c_ewma""}"%string.
+Proof. split; reflexivity. Qed.
+
+(* NewClient: Sprintf the service config, wrap it with WithDialOption, PREPEND it (append([]ClientOption{..}, opts...)), dial *)
+Lemma link_newclient_calls : C14_Gen.newclient_calls =
+  ["fmt.Sprintf"; "grpc.WithDefaultServiceConfig"; "WithDialOption"; "append"; "cli.dial"; "return"; "return"]%string.
+Proof. reflexivity. Qed.
+
+(* buildDialOptions: apply every option; insecure / block by flag; the two chains; then append cliOpts.DialOptions *)
+Lemma link_build_calls : C14_Gen.build_calls =
+  ["opt"; "<*ast.ArrayType>"; "insecure.NewCredentials"; "grpc.WithTransportCredentials"; "append"; "grpc.WithBlock"; "append";
+   "clientinterceptors.TimeoutInterceptor"; "WithUnaryClientInterceptors"; "WithStreamClientInterceptors"; "append"; "append";
+   "return"]%string.
+Proof. reflexivity. Qed.
+
+(* every ClientOption that touches DialOptions does so through exactly one append; the flag options touch nothing *)
+Lemma link_option_calls :
+  C14_Gen.with_dialoption_calls = ["append"; "return"]%string /\
+  C14_Gen.with_nonblock_calls = ["return"]%string /\
+  C14_Gen.with_timeout_calls = ["return"]%string /\
+  C14_Gen.with_creds_calls = ["grpc.WithTransportCredentials"; "append"; "return"]%string /\
+  C14_Gen.with_unary_calls = ["WithUnaryClientInterceptors"; "append"; "return"]%string /\
+  C14_Gen.with_stream_calls = ["WithStreamClientInterceptors"; "append"; "return"]%string /\
+  C14_Gen.unary_chain_calls = ["grpc.WithChainUnaryInterceptor"; "return"]%string /\
+  C14_Gen.stream_chain_calls = ["grpc.WithChainStreamInterceptor"; "return"]%string.
+Proof. repeat split; reflexivity. Qed.
+
+(* the model's options are the ones with an append in their skeleton: exactly those grow `dials` *)
+Lemma link_appending_options c o :
+  List.length (dials (apply_opt c o)) =
+  (List.length (dials c) + match o with WithNonBlock | WithTimeout _ => 0 | _ => 1 end)%nat.
+Proof. destruct o; cbn [apply_opt dials]; rewrite ?app_length; cbn [List.length]; lia. Qed.
+
+(* the checker's reading of the observations is the Spec's: label -2 present <-> wired *)
+Lemma link_label_wired ds : existsb (Z.eqb (-2)) (map label_of ds) = true <-> exists p, In (DSvcCfg p) ds.
+Proof.
+  rewrite existsb_exists. split.
+  - intros (x & Hin & Hx). apply in_map_iff in Hin as (d & Hd & Hin). apply Z.eqb_eq in Hx. subst x.
+    destruct d; cbn in Hx; try lia; eauto.
+  - intros (p & Hin). exists (-2). split; [|reflexivity]. apply in_map_iff. exists (DSvcCfg p). auto.
+Qed.
